@@ -497,8 +497,15 @@ func (a c12Assign) same(kind c12Kind, b c12Assign, i int) bool {
 // TestVerifC12LeveledRounds runs 2-4 successive LeveledUpdateBatch calls on ONE executor (as successive reconcile rounds do,
 // all inside the force-update window, so the ResourceCache decides what is skipped), including rounds that return to an
 // earlier assignment; every write of every round is a crash point, and after each round every file holds that round's target.
-func TestVerifC12LeveledRounds(t *testing.T) {
-	rec := vk.New(t, "C12", "leveledRounds")
+func TestVerifC12LeveledRounds(t *testing.T) { c12RoundsCheck(t, "leveledRounds", false) }
+
+// TestVerifC12LeveledDrift: the same rounds, but before a round the files may have been reset behind the agent's back to another
+// hierarchy-valid assignment (kubelet, runtime) while the executor's cache entries have aged beyond the force-update period, so
+// the round is a periodic force refresh: targets the cache believes to be in place are written again over drifted files.
+func TestVerifC12LeveledDrift(t *testing.T) { c12RoundsCheck(t, "leveledDrift", true) }
+
+func c12RoundsCheck(t *testing.T, unit string, withDrift bool) {
+	rec := vk.New(t, "C12", unit)
 	helper := sysutil.NewFileTestUtil(t)
 	defer helper.Cleanup()
 	helper.SetResourcesSupported(true, sysutil.MemoryMin, sysutil.MemoryLow, sysutil.MemoryHigh)
@@ -601,7 +608,7 @@ func TestVerifC12LeveledRounds(t *testing.T) {
 		}
 
 		rounds := rapid.IntRange(2, 4).Draw(t, "rounds")
-		sawRevert, sawShrinkThenGrow := false, false
+		sawRevert, sawShrinkThenGrow, sawDrift, sawRefreshOverDrift := false, false, false, false
 		everShrunk := make([]bool, len(nodes))
 		for r := 1; r <= rounds && !failed; r++ {
 			prev := assigns[r-1]
@@ -616,6 +623,32 @@ func TestVerifC12LeveledRounds(t *testing.T) {
 				next = c12GenAssign(t, kind, nodes, fmt.Sprintf("a%d", r))
 			}
 			assigns = append(assigns, next)
+			if withDrift && rapid.Bool().Draw(t, "driftAndForceRefresh") {
+				// the files drift to another valid assignment; every cache entry is older than the force-update period
+				drift := c12GenAssign(t, kind, nodes, fmt.Sprintf("d%d", r))
+				for i := range nodes {
+					if err := os.WriteFile(paths[i], []byte(drift.text(kind, v2, i, true)), 0o644); err != nil {
+						t.Fatalf("harness: %v", err)
+					}
+				}
+				for i, n := range nodes {
+					ku, err := DefaultCgroupUpdaterFactory.New(kind.Name, n.Dir, next.text(kind, v2, i, false), nil)
+					if err != nil {
+						t.Fatalf("harness: %v", err)
+					}
+					if o, ok := e.ResourceCache.Get(ku.Key()); ok {
+						o.(ResourceUpdater).UpdateLastUpdateTimestamp(time.Now().Add(-48 * time.Hour))
+					}
+				}
+				trace = append(trace, fmt.Sprintf("-- files drifted to %v, cache aged", drift))
+				sawDrift = true
+				for i := range nodes {
+					if next.same(kind, prev, i) && !drift.same(kind, next, i) {
+						sawRefreshOverDrift = true // the cache holds the target, the file does not
+					}
+				}
+				prev = drift
+			}
 			for i := range nodes {
 				if !kind.IsCPUSet {
 					if next.Nums[i] < prev.Nums[i] {
@@ -693,9 +726,212 @@ func TestVerifC12LeveledRounds(t *testing.T) {
 		c.ClassIf(sawRevert, "round-returns-to-earlier-assignment")
 		c.ClassIf(sawShrinkThenGrow, "node-shrinks-then-grows")
 		c.Class(fmt.Sprintf("rounds:%d", rounds))
-		if sawShrinkThenGrow || sawRevert {
-			c.NonTrivial(kind.Name, v2, fmt.Sprint(nodes), fmt.Sprint(assigns))
+		c.ClassIf(sawDrift, "files-drifted-and-cache-aged-before-a-round")
+		c.ClassIf(sawRefreshOverDrift, "force-refresh-of-a-cached-target-over-a-drifted-file")
+		if (!withDrift && (sawShrinkThenGrow || sawRevert)) || (withDrift && sawRefreshOverDrift) {
+			c.NonTrivial(kind.Name, v2, fmt.Sprint(nodes), fmt.Sprint(assigns), fmt.Sprint(trace))
 		}
 		c.Sample(map[string]any{"kind": kind.Name, "v2": v2, "nodes": nodes, "trace": trace})
+	})
+}
+
+// ---------------------------------------------------------------- two leveled batches racing on the same files
+//
+// Several koordlet plugins call LeveledUpdateBatch on overlapping files from their own goroutines; LeveledUpdateLock serialises
+// whole batches. The harness owns the interleaving at ONE point: after the k-th write of batch A it asks whether another batch
+// could get in right now (LeveledUpdateLock.TryLock); if so batch B runs to completion there, otherwise B runs after A. On a
+// tree that holds the lock for the whole batch B always runs after A, so the verdict is a pure function of the case.
+func TestVerifC12LeveledConcurrent(t *testing.T) {
+	rec := vk.New(t, "C12", "leveledConcurrent")
+	helper := sysutil.NewFileTestUtil(t)
+	defer helper.Cleanup()
+	helper.SetResourcesSupported(true, sysutil.MemoryMin, sysutil.MemoryLow, sysutil.MemoryHigh)
+
+	rapid.Check(t, func(t *rapid.T) {
+		c := rec.Begin()
+		defer c.End()
+		c12CaseSeq++
+		root := fmt.Sprintf("c12conc%d", c12CaseSeq)
+		kind := rapid.SampledFrom(c12Kinds).Draw(t, "kind")
+		v2 := rapid.Bool().Draw(t, "cgroupV2")
+		helper.SetCgroupsV2(v2)
+		defer helper.SetCgroupsV2(false)
+		res, err := sysutil.GetCgroupResource(kind.Name)
+		if err != nil {
+			t.Fatalf("harness: %v", err)
+		}
+		depth := rapid.IntRange(2, 3).Draw(t, "depth")
+		nodes := []c12Node{{Dir: root + "/kubepods", Level: 0, Parent: -1}}
+		frontier := []int{0}
+		for lvl := 1; lvl < depth; lvl++ {
+			var next []int
+			for _, p := range frontier {
+				fan := rapid.IntRange(1, 2).Draw(t, "fanout")
+				for k := 0; k < fan; k++ {
+					nodes = append(nodes, c12Node{Dir: fmt.Sprintf("%s/n%d", nodes[p].Dir, k), Level: lvl, Parent: p})
+					next = append(next, len(nodes)-1)
+				}
+			}
+			frontier = next
+		}
+		start := c12GenAssign(t, kind, nodes, "a0")
+		targetA := c12GenAssign(t, kind, nodes, "aA")
+		targetB := c12GenAssign(t, kind, nodes, "aB")
+		paths := make([]string, len(nodes))
+		for i, n := range nodes {
+			paths[i] = res.Path(n.Dir)
+			if err := os.MkdirAll(filepath.Dir(paths[i]), 0o777); err != nil {
+				t.Fatalf("harness: %v", err)
+			}
+			if err := os.WriteFile(paths[i], []byte(start.text(kind, v2, i, true)), 0o644); err != nil {
+				t.Fatalf("harness: %v", err)
+			}
+		}
+		caseRoots, _ := filepath.Glob(filepath.Join(helper.TempDir, "*", root))
+		defer func() {
+			os.RemoveAll(filepath.Join(helper.TempDir, root))
+			for _, d := range caseRoots {
+				os.RemoveAll(d)
+			}
+		}()
+
+		e := &ResourceUpdateExecutorImpl{ResourceCache: cache.NewCacheDefault(), Config: NewDefaultConfig()}
+		e.Config.ResourceForceUpdateSeconds = 24 * 3600
+		stop := make(chan struct{})
+		defer close(stop)
+		e.Run(stop)
+
+		var trace []string
+		failed := false
+		snapshot := func(step string) {
+			if failed {
+				return
+			}
+			cur := make([]string, len(nodes))
+			for i := range nodes {
+				b, _ := os.ReadFile(paths[i])
+				cur[i] = strings.Trim(string(b), "\n")
+				if kind.Name == sysutil.CPUCFSQuotaName && v2 && len(strings.Fields(cur[i])) == 1 {
+					if cur[i] == "-1" {
+						cur[i] = "max"
+					}
+					cur[i] += " 100000"
+					_ = os.WriteFile(paths[i], []byte(cur[i]), 0o644)
+				}
+			}
+			trace = append(trace, fmt.Sprintf("%s => %v", step, cur))
+			for i, n := range nodes {
+				if n.Parent < 0 {
+					continue
+				}
+				bad := false
+				if kind.IsCPUSet {
+					ch, e1 := cpuset.Parse(cur[i])
+					pa, e2 := cpuset.Parse(cur[n.Parent])
+					bad = e1 != nil || e2 != nil || !ch.IsSubsetOf(pa)
+				} else {
+					ch, e1 := c12ParseNum(kind, v2, cur[i])
+					pa, e2 := c12ParseNum(kind, v2, cur[n.Parent])
+					bad = e1 != nil || e2 != nil || ch > pa
+				}
+				if bad {
+					failed = true
+					c.Violation(t, "concurrent:child-outside-parent", "after %s: %s %s=%q not within parent %s=%q; trace=%v", step, kind.Name, n.Dir, cur[i], nodes[n.Parent].Dir, cur[n.Parent], trace)
+					return
+				}
+			}
+		}
+
+		pauseAt := rapid.IntRange(1, 2*len(nodes)).Draw(t, "letTheOtherBatchInAfterWriteK")
+		writesOfA, ranInside, ranB := 0, false, false
+		var build func(name string, target c12Assign, hook func()) [][]ResourceUpdater
+		build = func(name string, target c12Assign, hook func()) [][]ResourceUpdater {
+			lv := make([][]ResourceUpdater, depth)
+			for i, n := range nodes {
+				u, err := DefaultCgroupUpdaterFactory.New(kind.Name, n.Dir, target.text(kind, v2, i, false), nil)
+				if err != nil {
+					t.Fatalf("harness: %v", err)
+				}
+				cu := u.(*CgroupResourceUpdater)
+				origUpdate, origMerge := cu.updateFunc, cu.mergeUpdateFunc
+				dir := n.Dir
+				cu.updateFunc = func(x ResourceUpdater) error {
+					err := origUpdate(x)
+					snapshot(fmt.Sprintf("%s update(%s,%s)", name, dir, x.Value()))
+					hook()
+					return err
+				}
+				if origMerge != nil {
+					cu.mergeUpdateFunc = func(x ResourceUpdater) (ResourceUpdater, error) {
+						m, err := origMerge(x)
+						snapshot(fmt.Sprintf("%s merge(%s,%s)", name, dir, x.Value()))
+						hook()
+						return m, err
+					}
+				}
+				lv[n.Level] = append(lv[n.Level], cu)
+			}
+			return lv
+		}
+		runB := func(where string) {
+			ranB = true
+			trace = append(trace, "-- batch B "+where)
+			e.LeveledUpdateBatch(build("B", targetB, func() {}))
+		}
+		hookA := func() {
+			writesOfA++
+			if writesOfA != pauseAt || ranB || failed {
+				return
+			}
+			if e.LeveledUpdateLock.TryLock() { // nobody holds the batch lock: a concurrent batch would run right here
+				e.LeveledUpdateLock.Unlock()
+				ranInside = true
+				runB(fmt.Sprintf("gets in after write %d of batch A", writesOfA))
+			}
+		}
+		trace = append(trace, "-- batch A")
+		e.LeveledUpdateBatch(build("A", targetA, hookA))
+		if !ranB && !failed {
+			runB("after batch A")
+		}
+		if !failed && !ranInside {
+			for i, n := range nodes {
+				b, _ := os.ReadFile(paths[i])
+				cur := strings.Trim(string(b), "\n")
+				ok := false
+				if kind.IsCPUSet {
+					got, err := cpuset.Parse(cur)
+					ok = err == nil && got.Equals(cpuset.NewCPUSet(targetB.Sets[i]...))
+				} else {
+					got, err := c12ParseNum(kind, v2, cur)
+					ok = err == nil && got == targetB.Nums[i]
+				}
+				if !ok {
+					failed = true
+					c.Violation(t, "concurrent:final-not-target-of-last-batch", "%s %s holds %q, target of the last batch %q; trace=%v", kind.Name, n.Dir, cur, targetB.text(kind, v2, i, false), trace)
+					break
+				}
+			}
+		}
+		opposite := false
+		for i := range nodes {
+			if kind.IsCPUSet {
+				a, b, s0 := cpuset.NewCPUSet(targetA.Sets[i]...), cpuset.NewCPUSet(targetB.Sets[i]...), cpuset.NewCPUSet(start.Sets[i]...)
+				if !a.IsSubsetOf(s0) && !s0.IsSubsetOf(b) {
+					opposite = true
+				}
+			} else if targetA.Nums[i] > start.Nums[i] && targetB.Nums[i] < start.Nums[i] {
+				opposite = true
+			}
+		}
+		c.Class("kind:" + string(kind.Name))
+		c.ClassIf(v2, "cgroup-v2")
+		c.ClassIf(writesOfA >= pauseAt, "batch-A-reached-the-interleaving-point")
+		c.ClassIf(ranInside, "batch-B-ran-inside-batch-A")
+		c.ClassIf(opposite, "batch-A-grows-a-node-that-batch-B-shrinks")
+		if opposite && writesOfA >= pauseAt {
+			c.NonTrivial(kind.Name, v2, fmt.Sprint(nodes), fmt.Sprint(start), fmt.Sprint(targetA), fmt.Sprint(targetB), pauseAt)
+		}
+		c.Sample(map[string]any{"kind": kind.Name, "v2": v2, "nodes": nodes, "pauseAt": pauseAt, "trace": trace})
 	})
 }
